@@ -258,6 +258,10 @@ class C01(Prop):
         "PylifeVerif.C01.recorder_chunk_local_index_addresses_sample",
         "PylifeVerif.C01.recorder_chunk_local_index_addresses_sample_threePoint",
         "PylifeVerif.C01.fourPoint_index_valid_chunked",
+        # the literal transcription of fourpoint_loop (re-scan on every chunk) = the stack model
+        "PylifeVerif.C01.fourPoint_literal_eq",
+        "PylifeVerif.C01.fourPointLit_chunk_independent",
+        "PylifeVerif.C01.fourPoint_stack_irreducible",
     ]
     PARTIAL = {}
     ASSUMPTIONS = [
@@ -307,6 +311,9 @@ class C01(Prop):
         if case["det"] != "fkm":
             n = len(case["signal"])
             out.append(f"cli {len(case['lens'])} {' '.join(map(str, case['lens']))} {' '.join(map(str, range(n)))}")
+        if case["det"] == "fourpoint":
+            # the LITERAL transcription of process()/fourpoint_loop (array cursors, re-scan of the stored residuals on every chunk)
+            out.append("rf_lit" + rf_line(case["det"], case["signal"], case["lens"])[2:])
         return out
 
     def impl_lines(self, case):
@@ -319,6 +326,8 @@ class C01(Prop):
             # the recorder's global -> (chunk, position) map for EVERY sample index, against the model's chunkLocalIndex
             k, j = o["_rec"].chunk_local_index(np.arange(len(case["signal"])))
             out.append(" ".join(f"{int(a)}:{int(b)}" for a, b in zip(np.atleast_1d(k), np.atleast_1d(j))))
+        if case["det"] == "fourpoint":
+            out.append(out[0])
         return out
 
     def _count(self, case, o):
@@ -409,6 +418,15 @@ class C02(Prop):
         "PylifeVerif.C02.fkm_eq_spec_chunked",
         "PylifeVerif.C02.fourPoint_partition_chunked",
         "PylifeVerif.C02.fkm_partition_chunked",
+        "PylifeVerif.C02.threePoint_partition_chunked",
+        "PylifeVerif.C02.threePoint_index_valid_chunked",
+        # published worked example (Haibach, Betriebsfestigkeit, fig. 3.3-30, as transcribed in the repository's tests), kernel evaluation
+        "PylifeVerif.C02.literal_haibach_fourPoint",
+        "PylifeVerif.C02.literal_haibach_fourPoint_chunked",
+        "PylifeVerif.C02.literal_haibach_threePoint",
+        "PylifeVerif.C02.literal_haibach_spec",
+        "PylifeVerif.C02.literal_haibach_matrix",
+        "PylifeVerif.C02.literal_fkm_memory_1_2_3",
     ]
     PARTIAL = {}
     ASSUMPTIONS = [
@@ -591,6 +609,14 @@ class C03(Prop):
         "PylifeVerif.C03.fourPoint_insert_nonreversal_values",
         "PylifeVerif.C03.threePoint_insert_nonreversal_chunked",
         "PylifeVerif.C03.findTurnsNumpy_eq_reversals",
+        "PylifeVerif.C03.threePoint_affine_index",
+        # NaN samples at detector level (samples as Option Int)
+        "PylifeVerif.C03.newTurnsNan_chunked",
+        "PylifeVerif.C03.newTurnsNan_chunk_independent",
+        "PylifeVerif.C03.fourPoint_nan_chunked",
+        "PylifeVerif.C03.fourPoint_nan_chunk_independent",
+        "PylifeVerif.C03.fourPoint_nan_index_valid",
+        "PylifeVerif.C03.fkm_nan_chunked",
     ]
     PARTIAL = {}
     ASSUMPTIONS = [
@@ -644,6 +670,13 @@ class C03(Prop):
         if case["kind"] == "nan":
             s = " ".join(map(str, case["signal"]))
             return [f"turns_nan {len(case['nan_at'])} {' '.join(map(str, case['nan_at']))} {s}"]
+        if case["kind"] == "nanx":
+            toks = " ".join("nan" if x is None else str(x) for x in case["signal"])
+            out = []
+            for lens in nanx_partitions(case["signal"]):
+                head = f"{len(lens)} {' '.join(map(str, lens))} {toks}"
+                out += [f"rf_nan fourpoint {head}", f"rf_nan fkm {head}"]
+            return out
         return []
 
     def impl_lines(self, case):
@@ -661,6 +694,17 @@ class C03(Prop):
                 warnings.simplefilter("ignore")
                 idx, vals = find_turns(full)
             return [" ".join(f"{int(i)}:{fmt(v)}" for i, v in zip(idx, vals))]
+        if case["kind"] == "nanx":
+            sig = [float("nan") if x is None else float(x) for x in case["signal"]]
+            out = []
+            with warnings.catch_warnings():
+                warnings.simplefilter("ignore")
+                for lens in nanx_partitions(case["signal"]):
+                    for det in ("fourpoint", "fkm"):
+                        o = run_impl(det, split(sig, lens))
+                        line = canon(det, o).replace("nan", "nan")
+                        out.append(line if det == "fourpoint" else line)
+            return out
         return []
 
     def nontrivial(self, case, model_out):
@@ -849,6 +893,15 @@ class C03(Prop):
                             return (f"{det}: Series with {case['index']} index (chunks {cuts}, NaN at {case.get('nan_at')}) differs from its value array in {k}: {o[k]} vs {base[k]}", "series-index")
             return None
         return None
+
+
+def nanx_partitions(signal):
+    """Chunkings used for the NaN model correspondence: one piece, every cut into two, and single-sample chunks."""
+    n = len(signal)
+    parts = [[n]] + [[k, n - k] for k in range(1, n)]
+    if n > 2:
+        parts.append([1] * n)
+    return parts
 
 
 def nan_signal(case):
